@@ -124,6 +124,16 @@ func (r *c18Reader) Read(p []byte) (int, error) {
 			return 0, nil
 		}
 
+		if ch < 0 {
+			// a long run of empty reads (no data, no error): -ch of them, then the stream carries on
+			if r.zeroRun < -ch {
+				r.zeroRun++
+				r.ci-- // stay on this script entry
+
+				return 0, nil
+			}
+		}
+
 		r.zeroRun = 0
 
 		if ch > 0 && ch < n {
@@ -274,6 +284,16 @@ func c18Generate(c *mon.Ctx) {
 			stream := append(bytesRepeat(zeroB, skips), nB[:tail]...)
 			s := mon.H(stream)
 			c.Structured(func() any { return &c18Case{Stream: s, Chunks: nil, FailAt: -1, Pre: "5", Class: "eof"} })
+		}
+	}
+
+	// 3b. long runs of empty reads (0, nil) in the middle of a block and at block boundaries: 99, 100, 101, 250 in a row
+	for i, run := range []int{99, 100, 101, 250} {
+		for _, at := range []int{1, 17, 31, 32} {
+			stream := append(bytesRepeat(zeroB, i%2), c.SharedRng("empty-runs").Bytes(64)...)
+			full := mon.H(stream)
+			ch := []int{at, -run, 5}
+			c.Structured(func() any { return &c18Case{Stream: full, Chunks: ch, FailAt: -1, Pre: "77", Class: "empty-read-run"} })
 		}
 	}
 
